@@ -363,6 +363,10 @@ def run_assemblies(ctx):
                 case = {"assembly": a0.getType(), "source_mesh": srcmesh, "target_mesh": mesh, "mode": mode, "step": step}
                 S = snap(src, nucs)
                 try:
+                    with common.quiet():
+                        for b_ in src:      # the source blocks in arbitrary cache states
+                            if ctx.rng.random() < 0.25:
+                                set_cache_state(ctx.rng, b_, ctx.rng.choice(CACHE_STATES))
                     new = UM.makeAssemWithUniformMesh(src, mesh[1:], paramMapper=pm, mapNumberDensities=True)
                 except Exception as e:  # noqa
                     ctx.fail("remap-raises-on-valid-mesh", "re-meshing onto a mesh spanning the same height succeeds", case,
@@ -921,6 +925,178 @@ def run_restate(ctx):
 HEAVY = ("U", "PU", "NP", "AM", "CM")
 
 
+CACHE_STATES = ("all-cached", "none-cached", "one-invalid", "one-valid", "random-subset", "query-invalidate-prefix")
+
+
+def set_cache_state(rng, b, state):
+    """bring the component volume caches of a block into a given state with PURE cache operations (queries and
+    clearCache; nothing physical changes): all valid, none valid, exactly one component invalid (what a temperature or
+    dimension change of that component leaves behind), exactly one valid (block cache cleared, then one component asked
+    for its volume / mass), a random subset, or a random prefix of queries and invalidations"""
+    comps = list(b)
+
+    def query(c):
+        if rng.random() < 0.5:
+            c.getVolume()
+        else:
+            c.getMass()
+
+    if state == "all-cached":
+        b.clearCache()
+        b.getMass()
+        for c in comps:
+            c.getVolume()
+    elif state == "none-cached":
+        b.getMass()
+        b.clearCache()
+    elif state == "one-invalid":
+        b.getMass()
+        rng.choice(comps).clearCache()
+    elif state == "one-valid":
+        b.clearCache()
+        solid = [c for c in comps if type(c).__name__ != "DerivedShape"] or comps
+        query(rng.choice(solid))
+    elif state == "random-subset":
+        b.getMass()
+        for c in comps:
+            if rng.random() < 0.5:
+                c.clearCache()
+    else:
+        for _ in range(rng.randint(1, 6)):
+            u = rng.random()
+            c = rng.choice(comps)
+            if u < 0.35:
+                query(c)
+            elif u < 0.7:
+                c.clearCache()
+            elif u < 0.8:
+                b.clearCache()
+            elif u < 0.9:
+                b.getMass()
+            else:
+                b.getVolume()
+
+
+def run_cache_states(ctx):
+    """Block.setHeight(h, conserveMass=True, adjustList) and Assembly.setBlockMesh from PARTIALLY CACHED blocks: after an
+    optional physical change of one component (temperature), the block is measured, copied twice, and the three copies
+    are brought into different cache states (the case's state, all cached, none cached) before the same call. Every
+    listed nuclide keeps its mass (component by component summed, and as the block reports it), every other keeps its
+    density, and all three results are equal."""
+    import copy
+
+    fx = fixtures()
+    for it in range(ctx.pick(60, 600)):
+        a = copy.deepcopy(ctx.rng.choice(fx["assems"]))
+        ib = ctx.rng.randrange(len(a))
+        b = a[ib]
+        nucs = sorted(b.getNuclides())
+        if not nucs or len(b) < 2:
+            continue
+        phys = None
+        if ctx.rng.random() < 0.4:
+            c = ctx.rng.choice([x for x in b if x.containsSolidMaterial()] or list(b))
+            dT = ctx.rng.choice([-40.0, 15.0, 60.0])
+            try:
+                with common.quiet():
+                    c.setTemperature(float(c.temperatureInC) + dT)
+                phys = [c.name, dT]
+            except Exception:  # noqa
+                continue
+        kind = ctx.rng.choice(["full", "full", "heavy-metal", "random-subset", "shared-only"])
+        shared = [n for n in nucs if sum(1 for c in b if c.getNumberDensity(n) > 0) >= 2]
+        if kind == "full":
+            adjust = list(nucs)
+        elif kind == "heavy-metal":
+            adjust = [n for n in nucs if n.startswith(HEAVY)] or list(nucs)
+        elif kind == "shared-only":
+            adjust = shared or list(nucs)
+        else:
+            adjust = ctx.rng.sample(nucs, ctx.rng.randint(1, len(nucs)))
+        state = CACHE_STATES[it % len(CACHE_STATES)]
+        h0 = float(b.getHeight())
+        h1 = h0 * (1.0 + ctx.rng.choice([-16, -8, -3, 2, 5, 16, 32]) / 64.0)
+        case = {"assembly": a.getType(), "block": b.getType(), "mode": "setHeight from a cache state", "cache_state": state,
+                "changed_before": phys, "adjustList": kind, "height": [h0, h1], "shared_nuclides": len(shared)}
+        try:
+            m0 = {n: float(sum(c.getMass(n) for c in b)) for n in nucs}
+            nd0 = {n: float(b.getNumberDensity(n)) for n in nucs}
+            trip = [a, copy.deepcopy(a), copy.deepcopy(a)]
+            outs = []
+            for aa, st in zip(trip, (state, "all-cached", "none-cached")):
+                bb = aa[ib]
+                with common.quiet():
+                    set_cache_state(ctx.rng, bb, st)
+                    bb.setHeight(h1, conserveMass=True, adjustList=list(adjust))
+                outs.append(({n: float(sum(c.getMass(n) for c in bb)) for n in nucs},
+                             {n: float(bb.getNumberDensity(n)) for n in nucs}, float(bb.getHeight())))
+        except Exception as e:  # noqa
+            ctx.fail("setheight-raises-from-cache-state", "a mass-conserving height change of a valid block succeeds whatever its "
+                     "cache state", case, observed=repr(e)[:300])
+            continue
+        m1, nd1, hh = outs[0]
+        for n in nucs:
+            if n in adjust:
+                if not (fclose(m1[n], m0[n], 1e-9) or abs(m1[n] - m0[n]) < 1e-30):
+                    ctx.fail("setheight-nuclide-mass-conserved", "the mass of every nuclide in adjustList is conserved (sum over "
+                             "the components), whatever the cache state of the block", dict(case, nuclide=n,
+                             shared=n in shared), observed=m1[n], expected=m0[n])
+                if not (fclose(nd1[n] * h1, nd0[n] * h0, 1e-9) or (nd0[n] == 0.0 and nd1[n] == 0.0)):
+                    ctx.fail("setheight-listed-nuclide-conserved", "density x height of every nuclide in adjustList is "
+                             "conserved", dict(case, nuclide=n), observed=nd1[n] * h1, expected=nd0[n] * h0)
+            elif not (fclose(nd1[n], nd0[n], 1e-12) or (nd0[n] == 0.0 and nd1[n] == 0.0)):
+                ctx.fail("setheight-unlisted-nuclide-unchanged", "the density of every nuclide NOT in adjustList is "
+                         "unchanged (not wiped, not scaled)", dict(case, nuclide=n), observed=nd1[n], expected=nd0[n])
+        for (mx, ndx, _h), other in zip(outs[1:], ("all-cached", "none-cached")):
+            bad = [n for n in nucs if not (fclose(ndx[n], nd1[n], 1e-12) or abs(ndx[n] - nd1[n]) < 1e-40)]
+            if bad:
+                ctx.fail("setheight-independent-of-cache-state", "the result of a height change does not depend on which "
+                         "component volumes happened to be cached", dict(case, compared_with=other, nuclide=bad[0]),
+                         observed=nd1[bad[0]], expected=ndx[bad[0]])
+        ctx.count("setHeight from cache state " + state + (" after a temperature change" if phys else ""))
+        ctx.case(("cache-setheight", a.getType(), ib, state, kind, h1, bool(phys)), nontrivial=True)
+    # ---- Assembly.setBlockMesh with every block in its own cache state
+    snapped = [x for x in fx["assems"] if x[-1].p.topIndex != 0]
+    for it in range(ctx.pick(20, 200)):
+        a = copy.deepcopy(ctx.rng.choice(snapped))
+        mode = ctx.rng.choice([True, True, "auto"])
+        tops0 = [float(b.p.ztop) for b in a]
+        n = max(int(b.p.topIndex) for b in a) + 1
+        new_tops, z = [], 0.0
+        for t0, t1 in zip([0.0] + tops0, tops0):
+            z += (t1 - t0) * (1.0 + ctx.rng.choice([-16, -8, -4, 0, 4, 8, 16]) / 64.0)
+            new_tops.append(z)
+        mesh = [None] * n
+        for b, t in zip(a, new_tops):
+            mesh[int(b.p.topIndex)] = t
+        case = {"assembly": a.getType(), "mode": "setBlockMesh from cache states", "conserveMassFlag": mode, "new_tops": new_tops}
+        try:
+            trip = [a, copy.deepcopy(a), copy.deepcopy(a)]
+            states = [ctx.rng.choice(CACHE_STATES) for _ in a]
+            res = []
+            for aa, how in zip(trip, (None, "all-cached", "none-cached")):
+                with common.quiet():
+                    for b, st in zip(aa, states):
+                        set_cache_state(ctx.rng, b, how or st)
+                    aa.setBlockMesh(list(mesh), conserveMassFlag=mode)
+                res.append([[{k: float(v) for k, v in c.getNumberDensities().items()} for c in b] for b in aa])
+        except Exception as e:  # noqa
+            ctx.fail("setheight-raises-from-cache-state", "a block-mesh change of a valid assembly succeeds whatever the cache "
+                     "states of its blocks", case, observed=repr(e)[:300])
+            continue
+        for other, name in zip(res[1:], ("all-cached", "none-cached")):
+            for jb, (bx, by) in enumerate(zip(res[0], other)):
+                for cx, cy in zip(bx, by):
+                    bad = [k for k in cx if not (fclose(cx[k], cy.get(k, 0.0), 1e-12) or abs(cx[k] - cy.get(k, 0.0)) < 1e-40)]
+                    if bad:
+                        ctx.fail("setheight-independent-of-cache-state", "the result of a block-mesh change does not depend on which "
+                                 "component volumes happened to be cached", dict(case, block=jb, compared_with=name, nuclide=bad[0],
+                                 cache_state=states[jb]), observed=cx[bad[0]], expected=cy.get(bad[0]))
+                        break
+        ctx.count("setBlockMesh from per-block cache states")
+        ctx.case(("cache-blockmesh", a.getType(), str(mode), tuple(new_tops), tuple(states)), nontrivial=True)
+
+
 def run_block_mesh(ctx):
     """Block.setHeight(h, conserveMass=True, adjustList) / adjustDensity with full, proper-subset (heavy metal only, random)
     and empty nuclide lists; Assembly.setBlockMesh with conserveMassFlag False / True / "auto" on fuel, control and shield
@@ -958,6 +1134,8 @@ def run_block_mesh(ctx):
         case = {"assembly": a.getType(), "block": b.getType(), "mode": "setHeight", "adjustList": kind, "conserveMass": conserve,
                 "height": [h0, h1], "listed": len(adjust), "of": len(nucs)}
         try:
+            with common.quiet():
+                set_cache_state(ctx.rng, b, ctx.rng.choice(CACHE_STATES))     # whatever is cached must not matter
             try:
                 b.setHeight(h1, conserveMass=conserve, adjustList=list(adjust))
                 raised = False
@@ -1023,6 +1201,9 @@ def run_block_mesh(ctx):
         case = {"assembly": a.getType(), "mode": "setBlockMesh", "conserveMassFlag": mode, "old_tops": tops0, "new_tops": new_tops}
         try:
             with common.quiet():
+                for b in a:
+                    if ctx.rng.random() < 0.5:
+                        set_cache_state(ctx.rng, b, ctx.rng.choice(CACHE_STATES))
                 a.setBlockMesh(mesh, conserveMassFlag=mode)
             after = []
             for b in a:
@@ -1806,6 +1987,9 @@ def run_converter(ctx):
         per_a = [[float(z) for z in r.core.findAllAxialMeshPoints([a_])[1:]] for a_ in r.core]
         try:
             with common.quiet():
+                for a_ in ctx.rng.sample(watch, min(4, len(watch))):
+                    for b_ in a_:
+                        set_cache_state(ctx.rng, b_, ctx.rng.choice(CACHE_STATES))
                 conv.convert(r)
         except Exception as e:  # noqa
             ctx.fail("converter-raises", "converting a core onto its common mesh succeeds", case, observed=repr(e)[:300])
@@ -1952,6 +2136,7 @@ def run(ctx):
     run_nuclide_sets(ctx)
     run_restate(ctx)
     run_block_mesh(ctx)
+    run_cache_states(ctx)
     run_repeated(ctx)
     run_near(ctx)
     run_converter(ctx)
